@@ -88,6 +88,7 @@ def entries(thorough: bool) -> Dict[str, dict]:
     E["zhit:Z:default"] = {"call": zhit(False)}
     E["zhit:Y:boxcar"] = {"call": zhit(True, window="boxcar")}
     E["zhit:Y:negative-ReY"] = {"call": zhit(True, "lowess", "akima", "hann"), "data": "neg"}
+    E["zhit:Z:negative-ReZ"] = {"call": zhit(False, "lowess", "akima", "hann"), "data": "neg"}   # same spectrum: Re Z < 0 at high frequencies
     if thorough:
         E["zhit:Z:auto-options"] = {"call": zhit(False, "auto", "auto", "boxcar")}
 
@@ -319,7 +320,7 @@ def run(ctx) -> None:
     setup()
     ctx.rule = ("entry points: perform_kramers_kronig_test (3 / 6 linear tests x {Z, Y, auto} with fixed num_RC, automatic num_RC, "
                 "num_F_ext_evaluations in {0, 10, -10}, cnls), evaluate_log_F_ext and perform_exploratory_kramers_kronig_tests (all returned results), "
-                "perform_zhit (Z, Y, and a spectrum with negative Re Y that triggers the offset shift), calculate_drt (tr-nnls 2 modes x 3 lambda "
+                "perform_zhit (Z, Y, and a spectrum with negative Re Z / Re Y in both representations; the latter triggers the offset shift), calculate_drt (tr-nnls 2 modes x 3 lambda "
                 "modes, lm x 2 order methods, mrq-fit, bht with a fixed RNG seed), fit_circuit (3 / 9 methods x weights, a multi-method call; "
                 "thorough: auto/auto) x every mask subset of size <= 2 over 4 probe positions (first, last, two interior) x masked-point payloads "
                 "{true value, 1e12(1+j), -1e-12 (, NaN)} x ascending/descending input; plus each (light) entry point run twice in one process with "
